@@ -49,6 +49,8 @@ var LayoutTemplates = []string{
 	"a·<<E\nx\nE\n",
 	"{·a·<<E;·}\nx\nE\n",
 	"a·<<E·&&·b\nx\nE\n",
+	"{·# one\na·$(b·# two\n)·# three\n}",
+	"a·&&·# one\nb·|·# two\nc·$(d·# three\n)·# four\n",
 }
 
 // nonASCIIWordRunes: the non-ASCII representatives of D; all of them are
@@ -240,6 +242,12 @@ func C09_Layout() {
 		want++
 	}
 	nd.Assert(len(comm1) == want, "every added comment is returned exactly once")
+	// (positions restart with every ParseCommands call: the order is checked on the text)
+	order := ""
+	for _, c := range comm1 {
+		order += "#" + c.Text + "\n"
+	}
+	nd.Assert(order == commentsInOrder(out), "comments are returned in source order")
 	if added != nil && len(comm1) == want {
 		found := false
 		for _, c := range comm1 {
@@ -249,4 +257,39 @@ func C09_Layout() {
 		}
 		nd.Assert(found, "the added comment is returned with its text")
 	}
+}
+
+// commentsInOrder lists the comments of a layout text in source order (a
+// comment starts at a '#' that begins a token outside quotes and here-document
+// bodies; layout templates have no '#' elsewhere except inside ${ } / words).
+func commentsInOrder(src []rune) string {
+	out := ""
+	inS, inD := false, false
+	for i := 0; i < len(src); i++ {
+		c := src[i]
+		switch {
+		case inS:
+			if c == '\'' {
+				inS = false
+			}
+		case c == '\\':
+			i++
+		case inD:
+			if c == '"' {
+				inD = false
+			}
+		case c == '\'':
+			inS = true
+		case c == '"':
+			inD = true
+		case c == '#' && (i == 0 || src[i-1] == ' ' || src[i-1] == '\t' || src[i-1] == '\n' || src[i-1] == ';' || src[i-1] == '(' || src[i-1] == '|' || src[i-1] == '&'):
+			j := i + 1
+			for j < len(src) && src[j] != '\n' {
+				j++
+			}
+			out += "#" + string(src[i+1:j]) + "\n"
+			i = j - 1
+		}
+	}
+	return out
 }
